@@ -331,7 +331,7 @@ def del_clash_mark(key: str) -> str:
 
 
 def contains_namespace(val) -> bool:
-    if (isinstance(val, (dict, list)) and not isinstance(val, OrderedDict)) or type(val) is tuple:
+    if isinstance(val, (dict, list)) or type(val) is tuple:
         return any(contains_namespace(v) for v in (val.values() if isinstance(val, dict) else val))
     return isinstance(val, Namespace)
 
@@ -342,7 +342,7 @@ def namespaces_as_dicts(val):
         val = val.as_dict()
     elif contains_namespace(val):
         if isinstance(val, dict):
-            val = {k: namespaces_as_dicts(v) for k, v in val.items()}
+            val = (OrderedDict if isinstance(val, OrderedDict) else dict)((k, namespaces_as_dicts(v)) for k, v in val.items())
         else:
             val = type(val)(namespaces_as_dicts(v) for v in val)
     return val
